@@ -44,6 +44,7 @@ type c19Env struct {
 	base, home, cwd, rootA, rootB string
 	portA, portB                  string
 	srcIP                         string // source address of observation clients ("" = default)
+	noHome                        bool   // start the server without HOME / XDG_CONFIG_HOME in its environment
 }
 
 func newC19Env(base string) *c19Env {
@@ -87,6 +88,9 @@ type c19Assign struct {
 func (e *c19Env) start(assigns []c19Assign, wait time.Duration) (*BinSrv, error) {
 	args := []string{"server"}
 	env := cleanEnv(e.home)
+	if e.noHome {
+		env = []string{"PATH=/usr/bin:/bin", "TMPDIR=" + e.home}
+	}
 	ini := map[string][]string{}
 	hasListen := false
 	for _, a := range assigns {
@@ -295,6 +299,7 @@ func TestC19(t *testing.T) {
 	base := filepath.Join(scratchBase(), sprintf("verifh-c19-%d", os.Getpid()))
 	defer os.RemoveAll(base)
 	type tc struct {
+		noHome  bool
 		name    string
 		assigns []c19Assign
 		setting string
@@ -316,6 +321,12 @@ func TestC19(t *testing.T) {
 		}
 		// absent: the documented default
 		cases = append(cases, tc{name: sprintf("%s absent", s.flag), setting: s.flag, expect: "default"})
+	}
+	// the same channels when the user configuration directory cannot be determined (no HOME, no XDG_CONFIG_HOME)
+	for _, ch := range []string{"flag", "env", "configflag", "configenv", "cwdini"} {
+		cases = append(cases, tc{noHome: true, name: "json-log via " + ch + " without HOME", setting: "json-log", expect: "A", assigns: []c19Assign{{ch, "json-log", "A"}}})
+		cases = append(cases, tc{noHome: true, name: "allow-write via " + ch + " without HOME", setting: "allow-write", expect: "A", assigns: []c19Assign{{ch, "allow-write", "A"}}})
+		cases = append(cases, tc{noHome: true, name: "client-whitelist malformed via " + ch + " without HOME", setting: "client-whitelist", bad: true, assigns: []c19Assign{{ch, "client-whitelist", "not-an-address"}}})
 	}
 	// every pair of settings given together (flags): each must still have its own effect (wiring interactions,
 	// e.g. whitelist + client limit)
@@ -339,6 +350,7 @@ func TestC19(t *testing.T) {
 		}
 		os.RemoveAll(base)
 		e := newC19Env(base)
+		e.noHome = c.noHome
 		a, _ := e.values(c.setting)
 		var assigns []c19Assign
 		for _, x := range c.assigns {
